@@ -315,7 +315,6 @@ pub fn anchor_candidates(ts: &TaskSet, prep: &Prep, policy: Policy, victim: usiz
 
 pub struct SchedOut {
     pub sc: Scenario,
-    pub victim: usize,
     pub pattern: &'static str,
 }
 
@@ -597,7 +596,6 @@ pub fn gen_schedule(
             quantum,
             time_cap: last_rel + total + 2,
         },
-        victim,
         pattern,
     }
 }
